@@ -3,6 +3,8 @@
 # Confirms in a scratch worktree of /repo HEAD: suite passes with the change; demo fails with it, passes without.
 # On success stores /verif/seeded/<name>/{patch.diff,demo_test.go,meta.json}.
 ID=$1; NAME=$2; PATCH=$3; DEMO=$4; DIR=$5; RX=$6; RACE=${7:-}
+# DIR may be "<module dir>:<package dir>" for the nested modules (e.g. exp:zapslog)
+MOD=.; case $DIR in *:*) MOD=${DIR%%:*}; DIR=${DIR##*:};; esac
 export GOFLAGS=-mod=mod GOPROXY=off GOSUMDB=off GOTOOLCHAIN=local
 WT=/tmp/sv/$(echo $NAME | tr 'A-Z' 'a-z')
 rm -rf $WT; git -C /repo worktree prune; git -C /repo worktree add -q --detach $WT HEAD || exit 2
@@ -15,10 +17,10 @@ for m in . exp zapgrpc/internal/test; do
   (cd $WT/$m && go test -vet=off -count=1 ./... >/tmp/sv/$NAME.suite.log 2>&1) || { suite=FAIL; grep -E "^(--- FAIL|FAIL|panic)" /tmp/sv/$NAME.suite.log | head -5; }
 done
 echo "suite with change: $suite"
-cp "$DEMO" $WT/$DIR/seed_demo_test.go
-(cd $WT && go test $RACE -vet=off -count=1 -run "$RX" ./$DIR/ >/tmp/sv/$NAME.demo1.log 2>&1); d1=$?
+cp "$DEMO" $WT/$MOD/$DIR/seed_demo_test.go
+(cd $WT/$MOD && go test $RACE -vet=off -count=1 -run "$RX" ./$DIR/ >/tmp/sv/$NAME.demo1.log 2>&1); d1=$?
 git apply -R "$PATCH"
-(cd $WT && go test $RACE -vet=off -count=1 -run "$RX" ./$DIR/ >/tmp/sv/$NAME.demo0.log 2>&1); d0=$?
+(cd $WT/$MOD && go test $RACE -vet=off -count=1 -run "$RX" ./$DIR/ >/tmp/sv/$NAME.demo0.log 2>&1); d0=$?
 echo "demo with change: exit $d1 ; without: exit $d0"
 if [ $suite = pass ] && [ $d1 != 0 ] && [ $d0 = 0 ]; then
   mkdir -p /verif/seeded/$NAME
